@@ -159,7 +159,7 @@ func (w *World) runsInit(path string) bool {
 		return true
 	}
 	switch path {
-	case "golang.org/x/text/unicode/rangetable", "html":
+	case "golang.org/x/text/unicode/rangetable", "html", "unicode/utf8":
 		return true
 	}
 	return false
